@@ -284,11 +284,19 @@ type chassis struct {
 	sinceFlush  int
 	storeRows   int64
 	storeBad    []string
+	// case attribution and containment
+	cur         atomic.Value // cid of the running case ("" during set-up)
+	active      atomic.Int64 // requests inside some node's handler chain right now
+	caseInbound atomic.Int64
+	residual    atomic.Int64 // inbound requests that belonged to an earlier case (rejected unprocessed)
+	broken      atomic.Int64 // loop-breaker activations
 	// client-side transport errors (retried, never judged)
 	transportErrs    int64
 	lastTransportErr string
 }
 
+const caseHeader = "X-C30-Case"
+const maxInboundPerCase = 6
 const markerMeas = "c30marker"
 const writeMeas = "c30w"
 
@@ -304,6 +312,7 @@ func nodeDB(i int) string   { return fmt.Sprintf("c30db%d", i) }
 
 func newChassis(id int, root string) (*chassis, error) {
 	ch := &chassis{id: id, root: root, expectStore: map[string]int{}}
+	ch.cur.Store("")
 	lg := zerolog.Nop()
 	byAddr := map[string]*fasthttputil.InmemoryListener{}
 	for i := 0; i < maxNodes; i++ {
@@ -330,11 +339,26 @@ func newChassis(id int, root string) (*chassis, error) {
 		n.app = n.srv.GetApp()
 		nn := n
 		n.app.Use(func(c *fiber.Ctx) error {
+			ch.active.Add(1)
+			defer ch.active.Add(-1)
+			// requests are attributed to the case that issued them by a neutral client header that the
+			// forwarding path copies like any other; anything else is residue of an earlier case
+			cur, _ := ch.cur.Load().(string)
+			if string(c.Request().Header.Peek(caseHeader)) != cur {
+				ch.residual.Add(1)
+				return c.Status(599).SendString("c30 harness: request of an earlier case")
+			}
 			v := c.Request().Header.Peek("X-Arc-Forwarded-By")
 			rec := inboundRec{Path: string(c.Request().URI().Path()), FwdBy: string(v), Has: len(v) > 0}
 			nn.mu.Lock()
 			nn.inbound = append(nn.inbound, rec)
 			nn.mu.Unlock()
+			// loop breaker: a correct cluster shows at most 2 inbound requests per case (client + one forward);
+			// a forwarding loop is cut here once it is beyond doubt, so that a broken tree is reported quickly
+			if ch.caseInbound.Add(1) > maxInboundPerCase {
+				ch.broken.Add(1)
+				return c.Status(599).SendString("c30 harness: forwarding loop cut")
+			}
 			return c.Next()
 		})
 		n.mp = api.NewMsgPackHandler(lg, n.buf, 16<<20)
@@ -473,6 +497,9 @@ func (ch *chassis) do(target int, method, path, ct string, body []byte, hdr map[
 	}
 	for k, v := range hdr {
 		req.Header[k] = v // raw key: lets a case send a non-canonical header name
+	}
+	if cur, _ := ch.cur.Load().(string); cur != "" {
+		req.Header.Set(caseHeader, cur)
 	}
 	resp, err := ch.client.Do(req)
 	if err != nil {
@@ -633,7 +660,17 @@ func (ch *chassis) run(c caseCfg) obs {
 	case hLower:
 		hdr = map[string][]string{"x-arc-forwarded-by": {"not-a-node"}}
 	}
+	ch.caseInbound.Store(0)
+	ch.cur.Store(cid)
 	st, rb, err := ch.do(0, method, path, ct, body, hdr)
+	// quiescence: nothing of this case may still be running inside a node when its effects are read
+	for t0 := time.Now(); ch.active.Load() != 0; {
+		if time.Since(t0) > 60*time.Second {
+			ev.Unbound(fmt.Sprintf("requests still in flight 60s after the client was answered in %s", c))
+		}
+		time.Sleep(200 * time.Microsecond)
+	}
+	ch.cur.Store("")
 
 	o := obs{Status: st, Inbound: make([][]inboundRec, N), Proc: make([]int, N), ExecNode: -1, DialFail: ch.dialFails.Load() - df0}
 	if err != nil {
@@ -990,7 +1027,7 @@ func judge(c caseCfg, o obs) []finding {
 	// L1: otherwise forwarded once to a capable peer. Demanded only when the request is not marked as forwarded
 	// and every peer the receiving node could pick (recorded healthy with a recorded role able to serve it) really is
 	// reachable and capable, so that the answer does not depend on which of them the router picks.
-	if !capable(c, 0) && c.Hdr == hAbsent {
+	if !capable(c, 0) && c.Hdr == hAbsent && o.Proc[0] == 0 {
 		cand, good := 0, 0
 		for j := 1; j < N; j++ {
 			p := c.Nodes[j]
@@ -1006,6 +1043,9 @@ func judge(c caseCfg, o obs) []finding {
 				out = append(out, finding{"not-forwarded-to-capable-peer", "the receiving node cannot serve the request, a healthy capable peer exists in its registry, yet the request was not served through exactly one forward; " + chain()})
 			}
 		}
+	}
+	if !isW && ok2xx(o.Status) && !o.CidEcho {
+		out = append(out, finding{"unrecognised-answer", "a success answer that is not the answer to this request: " + fmt.Sprintf("%.160q; ", o.Body) + chain()})
 	}
 	if !isW && ok2xx(o.Status) && o.ExecNode >= 0 && o.ExecNode < N && o.Proc[o.ExecNode] == 0 {
 		out = append(out, finding{"answer-from-unrecorded-node", fmt.Sprintf("the answer carries the marker of node-%d whose query log has no trace of it; %s", o.ExecNode, chain())})
@@ -1143,11 +1183,15 @@ func (s *spaceDef) hdrsFor() []int {
 }
 
 var (
-	allKinds     = []int{kMsgpack, kLP, kLPv1, kLPv2, kTLE, kQuery, kQueryShow, kQueryMsgpack, kQueryArrow, kQueryEstimate, kQueryMeasurement}
-	primaryKinds = []int{kMsgpack, kLP, kQuery, kQueryShow}
-	cheapKinds   = []int{kMsgpack, kLP, kQueryShow}
-	allHdrs      = []int{hAbsent, hJunk, hSelf, hPeer, hLower}
-	mainHdrs     = []int{hAbsent, hJunk, hPeer}
+	allKinds      = []int{kMsgpack, kLP, kLPv1, kLPv2, kTLE, kQuery, kQueryShow, kQueryMsgpack, kQueryArrow, kQueryEstimate, kQueryMeasurement}
+	routedKinds   = []int{kMsgpack, kLP, kLPv1, kLPv2, kTLE, kQuery, kQueryShow}         // cheap enough for the wide spaces
+	endpointKinds = []int{kQueryMsgpack, kQueryArrow, kQueryEstimate, kQueryMeasurement} // DuckDB scans of the marker measurement
+	siblingKinds  = []int{kLPv1, kLPv2, kTLE, kQueryMsgpack, kQueryArrow, kQueryEstimate, kQueryMeasurement}
+	primaryKinds  = []int{kMsgpack, kLP, kQuery, kQueryShow}
+	cheapKinds    = []int{kMsgpack, kLP, kQueryShow}
+	allHdrs       = []int{hAbsent, hJunk, hSelf, hPeer, hLower}
+	mainHdrs      = []int{hAbsent, hJunk, hPeer}
+	twoHdrs       = []int{hAbsent, hJunk}
 )
 
 func spaces(quick bool) []*spaceDef {
@@ -1163,27 +1207,34 @@ func spaces(quick bool) []*spaceDef {
 			solo = append(solo, nodeCfg{real, real, '-', 'h', router})
 		}
 	}
-	add(&spaceDef{Name: "N1", N: 1, Recv: solo, MaxStale: -1, Kinds: allKinds, Hdrs: allHdrs,
-		Desc: "1 node: 4 roles x router present/absent"})
+	const recvLite = "receiving node {4 roles x router wired/absent x recorded by the others as {its real role, primary writer, reader}}"
+	const recvFull = "receiving node {4 roles x router wired/absent x recorded by the others as any role (writer: primary/standby/none) x recorded healthy/unhealthy/dead}"
+	const peerFull = "peer {4 real roles x recorded as any of the 4 roles (writer: primary/standby/none) x healthy/unhealthy/failed/crashed-undetected}"
+	const peerCons = "peer {4 roles recorded correctly (writer: primary/standby/none) x healthy/unhealthy/failed/crashed-undetected}"
+	add(&spaceDef{Name: "N1", N: 1, Recv: solo, MaxStale: -1, Kinds: allKinds, Hdrs: allHdrs, Desc: "1 node: 4 roles x router wired/absent"})
 	if quick {
-		add(&spaceDef{Name: "N2-full", N: 2, Recv: recvSet(false, h1), Peers: peerSet(h4, false), MaxStale: -1, Kinds: allKinds, Hdrs: allHdrs,
-			Desc: "2 nodes: receiver {4 roles x router present/absent x seen by its peer as {itself, primary writer, reader}} x peer {4 real roles x recorded as any of 4 roles (writer: primary/standby/none) x healthy/unhealthy/failed/crashed-undetected}"})
+		add(&spaceDef{Name: "N2", N: 2, Recv: recvSet(false, h1), Peers: peerSet(h4, false), MaxStale: -1, Kinds: routedKinds, Hdrs: allHdrs,
+			Desc: "2 nodes: " + recvLite + " x " + peerFull})
+		add(&spaceDef{Name: "N2-endpoints", N: 2, Recv: recvSet(false, h1), Peers: peerSet(h4, true), MaxStale: -1, Kinds: endpointKinds, Hdrs: twoHdrs,
+			Desc: "2 nodes, remaining query endpoints: " + recvLite + " x " + peerCons})
 		add(&spaceDef{Name: "N3", N: 3, Recv: recvSet(false, h1), Peers: peerSet(h4, false), MaxStale: 1, Kinds: cheapKinds, Hdrs: mainHdrs,
-			Desc: "3 nodes: same receiver and peer alphabets, every multiset of 2 peers, at most one node with a stale recorded role"})
-		add(&spaceDef{Name: "N3-query", N: 3, Recv: recvSet(false, h1), Peers: peerSet(h3, false), MaxStale: 1, Kinds: []int{kQuery}, Hdrs: []int{hAbsent, hJunk},
+			Desc: "3 nodes: " + recvLite + " x every multiset of 2 x " + peerFull + ", at most one node with a stale recorded role"})
+		add(&spaceDef{Name: "N3-select", N: 3, Recv: recvSet(false, h1), Peers: peerSet(h3, false), MaxStale: 1, Kinds: []int{kQuery}, Hdrs: twoHdrs,
 			Desc: "3 nodes, executed SELECT: peers healthy/unhealthy/failed, at most one stale node"})
-		add(&spaceDef{Name: "N4", N: 4, Recv: recvSet(false, h1), Peers: peerSet(h3, false), MaxStale: 1, Kinds: cheapKinds, Hdrs: []int{hAbsent, hJunk},
-			Desc: "4 nodes: every multiset of 3 peers (healthy/unhealthy/failed), at most one node with a stale recorded role"})
+		add(&spaceDef{Name: "N4", N: 4, Recv: recvSet(false, h1), Peers: peerSet(h4, true), MaxStale: 0, Kinds: cheapKinds, Hdrs: mainHdrs,
+			Desc: "4 nodes, consistent registries: receiving node {4 roles x router wired/absent} x every multiset of 3 x " + peerCons})
 	} else {
-		add(&spaceDef{Name: "N2-full", N: 2, Recv: recvSet(true, h3), Peers: peerSet(h4, false), MaxStale: -1, Kinds: allKinds, Hdrs: allHdrs,
-			Desc: "2 nodes: receiver {4 roles x router present/absent x recorded by its peer as any role/writer state x healthy/unhealthy/dead} x peer {4 real roles x recorded as any of 4 roles (writer: primary/standby/none) x healthy/unhealthy/failed/crashed-undetected}"})
+		add(&spaceDef{Name: "N2", N: 2, Recv: recvSet(true, h3), Peers: peerSet(h4, false), MaxStale: -1, Kinds: routedKinds, Hdrs: allHdrs,
+			Desc: "2 nodes: " + recvFull + " x " + peerFull})
+		add(&spaceDef{Name: "N2-endpoints", N: 2, Recv: recvSet(false, h1), Peers: peerSet(h4, false), MaxStale: -1, Kinds: endpointKinds, Hdrs: mainHdrs,
+			Desc: "2 nodes, remaining query endpoints: " + recvLite + " x " + peerFull})
 		add(&spaceDef{Name: "N3", N: 3, Recv: recvSet(false, h1), Peers: peerSet(h4, false), MaxStale: -1, Kinds: primaryKinds, Hdrs: allHdrs,
-			Desc: "3 nodes: receiver {4 roles x router x seen as itself/primary writer/reader} x every multiset of 2 peers from the full peer alphabet, any staleness"})
-		add(&spaceDef{Name: "N3-all-endpoints", N: 3, Recv: recvSet(false, h1), Peers: peerSet(h3, false), MaxStale: 1, Kinds: allKinds, Hdrs: mainHdrs,
-			Desc: "3 nodes, every endpoint: peers healthy/unhealthy/failed, at most one stale node"})
+			Desc: "3 nodes: " + recvLite + " x every multiset of 2 x " + peerFull + ", any staleness"})
+		add(&spaceDef{Name: "N3-endpoints", N: 3, Recv: recvSet(false, h1), Peers: peerSet(h3, true), MaxStale: 0, Kinds: siblingKinds, Hdrs: mainHdrs,
+			Desc: "3 nodes, sibling endpoints, consistent registries: receiving node {4 roles x router wired/absent} x every multiset of 2 peers {4 roles x healthy/unhealthy/failed}"})
 		add(&spaceDef{Name: "N4", N: 4, Recv: recvSet(false, h1), Peers: peerSet(h4, false), MaxStale: 2, Kinds: cheapKinds, Hdrs: mainHdrs,
-			Desc: "4 nodes: every multiset of 3 peers from the full peer alphabet, at most two nodes with a stale recorded role"})
-		add(&spaceDef{Name: "N4-query", N: 4, Recv: recvSet(false, h1), Peers: peerSet(h3, false), MaxStale: 1, Kinds: []int{kQuery}, Hdrs: []int{hAbsent, hJunk},
+			Desc: "4 nodes: " + recvLite + " x every multiset of 3 x " + peerFull + ", at most two nodes with a stale recorded role"})
+		add(&spaceDef{Name: "N4-select", N: 4, Recv: recvSet(false, h1), Peers: peerSet(h3, false), MaxStale: 1, Kinds: []int{kQuery}, Hdrs: twoHdrs,
 			Desc: "4 nodes, executed SELECT: peers healthy/unhealthy/failed, at most one stale node"})
 	}
 	return sp
@@ -1218,8 +1269,8 @@ type classes struct {
 }
 
 func attrReduces(c, m nodeCfg) bool {
-	return m.Real == c.Real && (m.Rec == c.Rec || m.Rec == m.Real) && (m.WS == c.WS || m.WS == '-') &&
-		(m.Health == c.Health || m.Health == 'h') && (m.Router == c.Router || m.Router)
+	roles := (m.Real == c.Real && (m.Rec == c.Rec || m.Rec == m.Real)) || (m.Real == c.Rec && m.Rec == c.Rec)
+	return roles && (m.WS == c.WS || m.WS == '-') && (m.Health == c.Health || m.Health == 'h') && (m.Router == c.Router || m.Router)
 }
 
 // reducesTo: can the raw case c be turned into the minimal case m by the minimiser's own steps
@@ -1334,8 +1385,11 @@ func (ch *chassis) minimise(c caseCfg, k string, cl *classes) (caseCfg, finding,
 			}
 			if n.stale() {
 				a := n
-				a.Rec, a.WS = a.Real, '-'
+				a.Rec, a.WS = a.Real, '-' // recorded correctly
 				alts = append(alts, a)
+				b := n
+				b.Real = b.Rec // really what it is recorded as
+				alts = append(alts, b)
 			}
 			if n.WS != '-' {
 				a := n
@@ -1384,7 +1438,9 @@ func (cl *classes) report(ch *chassis, c caseCfg, f finding) {
 	}
 	if _, seen := cl.desc[sig]; !seen {
 		cl.desc[sig] = g.Desc
-		cl.replay[sig] = map[string]any{"minimal_case": m.String(), "nodes": describe(m), "first_raw_case": c.String(), "oracle": f.Kind}
+		cl.replay[sig] = map[string]any{"minimal_case": m.String(), "nodes": describe(m), "first_raw_case": c.String(), "oracle": f.Kind,
+			"request_kind": kinds[m.Kind].Name, "client_header": hdrName[m.Hdr],
+			"how": "./check C30 --replay <this file> re-executes minimal_case 5 times on a fresh in-process cluster and prints what every node did"}
 		if stable {
 			cl.minimal[f.Kind] = append(cl.minimal[f.Kind], m)
 			cl.sig[f.Kind+"#"+m.key()] = sig
@@ -1421,6 +1477,64 @@ func (ch *chassis) runRetry(c caseCfg) (obs, bool) {
 }
 
 // ---------------------------------------------------------------------------------------------
+
+// loadReplay rebuilds the case of a replay artefact written by this check.
+func loadReplay(path string) (caseCfg, bool) {
+	if path == "" {
+		return caseCfg{}, false
+	}
+	b, err := os.ReadFile(path)
+	if err != nil {
+		return caseCfg{}, false
+	}
+	var f struct {
+		Replay struct {
+			Kind  string `json:"request_kind"`
+			Hdr   string `json:"client_header"`
+			Nodes []struct {
+				Real   string `json:"real_role"`
+				Rec    string `json:"role_recorded_by_others"`
+				WS     string `json:"writer_state_recorded"`
+				Health string `json:"health"`
+				Router bool   `json:"router_wired"`
+			} `json:"nodes"`
+		} `json:"replay"`
+	}
+	if json.Unmarshal(b, &f) != nil || len(f.Replay.Nodes) == 0 || len(f.Replay.Nodes) > maxNodes {
+		return caseCfg{}, false
+	}
+	c := caseCfg{Kind: -1, Hdr: -1}
+	for k := range kinds {
+		if kinds[k].Name == f.Replay.Kind {
+			c.Kind = k
+		}
+	}
+	for h := range hdrName {
+		if hdrName[h] == f.Replay.Hdr {
+			c.Hdr = h
+		}
+	}
+	letter := func(name string) byte {
+		for l, n := range roleName {
+			if n == name {
+				return l
+			}
+		}
+		return 0
+	}
+	for _, n := range f.Replay.Nodes {
+		nc := nodeCfg{Real: letter(n.Real), Rec: letter(n.Rec), Router: n.Router}
+		if len(n.WS) != 1 || len(n.Health) != 1 || nc.Real == 0 || nc.Rec == 0 {
+			return caseCfg{}, false
+		}
+		nc.WS, nc.Health = n.WS[0], n.Health[0]
+		c.Nodes = append(c.Nodes, nc)
+	}
+	if c.Kind < 0 || c.Hdr < 0 {
+		return caseCfg{}, false
+	}
+	return c, true
+}
 
 func cpuSeconds() float64 {
 	var ru syscall.Rusage
@@ -1464,6 +1578,9 @@ func main() {
 	if s := os.Getenv("VERIF_C30_WORKERS"); s != "" {
 		nw, _ = strconv.Atoi(s)
 	}
+	if _, ok := loadReplay(run.Replay); ok {
+		nw = 1
+	}
 	t0 := time.Now()
 	chs := make([]*chassis, nw)
 	var wg sync.WaitGroup
@@ -1487,6 +1604,31 @@ func main() {
 	}
 	fmt.Printf("%d in-process clusters of %d nodes up in %.1fs\n", nw, maxNodes, time.Since(t0).Seconds())
 
+	if rc, ok := loadReplay(run.Replay); ok {
+		ch := chs[0]
+		bad := 0
+		for i := 0; i < 5; i++ {
+			o, okRun := ch.runRetry(rc)
+			fs := judge(rc, o)
+			fmt.Printf("replay %d: %s -> status=%d forwards=%d processed=%v transport_ok=%v\n", i+1, rc, o.Status, o.Forwards, o.Proc, okRun)
+			for _, f := range fs {
+				fmt.Printf("  %s: %s\n", f.Kind, f.Desc)
+			}
+			if len(fs) > 0 {
+				bad++
+			}
+		}
+		for _, c := range chs {
+			c.close()
+		}
+		cleanup()
+		if bad > 0 {
+			fmt.Printf("VIOLATION property=C30 replay=%s  # reproduced %d/5\n", run.Replay, bad)
+			os.Exit(1)
+		}
+		fmt.Println("replay: no violation")
+		os.Exit(0)
+	}
 	if os.Getenv("VERIF_C30_BENCH") != "" {
 		bench(chs[0])
 		cleanup()
@@ -1576,7 +1718,7 @@ func main() {
 		}(w)
 	}
 	wg.Wait()
-	var storeRows, tErrs int64
+	var storeRows, tErrs, residual, broken int64
 	var storeBad []string
 	lastTE := ""
 	for _, ch := range chs {
@@ -1584,6 +1726,8 @@ func main() {
 		storeRows += ch.storeRows
 		storeBad = append(storeBad, ch.storeBad...)
 		tErrs += ch.transportErrs
+		residual += ch.residual.Load()
+		broken += ch.broken.Load()
 		if ch.lastTransportErr != "" {
 			lastTE = ch.lastTransportErr
 		}
@@ -1632,6 +1776,8 @@ func main() {
 	if lastTE != "" {
 		run.Coverage["client_transport_error_example"] = lastTE
 	}
+	run.Coverage["stale_requests_rejected_by_harness"] = residual
+	run.Coverage["forwarding_loops_cut_by_harness"] = broken
 	run.Coverage["cases_forwarded"] = forwarded.Load()
 	run.Coverage["cases_rejected_508"] = rejected508.Load()
 	run.Coverage["distinct_outcomes"] = len(merged)
@@ -1665,6 +1811,17 @@ func main() {
 		for i := 0; i < cl.count[s]; i++ {
 			run.Violate(s, cl.desc[s], cl.replay[s])
 		}
+	}
+	for _, r := range spaceRows {
+		fmt.Printf("space %-14v N=%v configurations=%v evaluated=%v nontrivial=%v\n", r["space"], r["nodes"], r["configurations"], r["evaluated"], r["nontrivial"])
+	}
+	okeys := make([]string, 0, len(merged))
+	for k := range merged {
+		okeys = append(okeys, k)
+	}
+	sort.Strings(okeys)
+	for _, k := range okeys {
+		fmt.Printf("  outcome %-55s %d\n", k, merged[k])
 	}
 	fmt.Printf("C30 evaluated=%d nontrivial=%d forwarded=%d rejected508=%d outcomes=%d classes=%d exhaustive=%v cpu=%.0fs wall=%.1fs\n",
 		evals.Load(), nontriv.Load(), forwarded.Load(), rejected508.Load(), len(merged), len(sigs), exhaustive, cpuSeconds(), time.Since(t0).Seconds())
